@@ -61,6 +61,11 @@ def main():
                 shutil.copy(demo, os.path.join(wt, "zz_seeded_demo_test.go"))
                 rc, out = sh(["go", "test", "-vet=off", "-count=1", "-run", "^%s$" % tname, "."], cwd=wt)
                 rec["demo_with_change"] = "fails" if rc != 0 else "PASSES"
+                if rc == 0:
+                    rcd, _ = sh(["go", "test", "-vet=off", "-count=1", "-tags", "debug", "-run", "^%s$" % tname, "."], cwd=wt)
+                    if rcd != 0:
+                        rec["demo_with_change"] = "fails"
+                        rec["only_with_debug_tag"] = True
                 ok = (rec["demo_without_change"] == "pass" and rec["suite_release"] == "pass" and rec["suite_debug"] == "pass"
                       and rec["demo_with_change"] == "fails")
                 rec["confirmed"] = ok
@@ -75,6 +80,8 @@ def main():
                             "demo_test": tname,
                             "confirmed_by": "driver/ingest.py: patch applies to HEAD; go test ./... and -tags debug pass with it; the demo fails with it and passes without it",
                             "needs_to_manifest": "see README.md"}
+                    if rec.get("only_with_debug_tag"):
+                        meta["only_with_debug_tag"] = True
                     mp = os.path.join(dst, "meta.json")
                     if os.path.exists(mp):
                         old = json.load(open(mp))
